@@ -276,7 +276,7 @@ def pred_direction(v, g):
     return None
 
 
-def pred_eigen(spec: dict, x, np_seed: int):
+def pred_eigen(spec: dict, x, np_seed: int, chain: dict | None = None):
     """get_smallest_eigenvector against dense eigh of the known Hessian (interior point), or unit
     norm / no outward component (boundary point)"""
     StandardCoordinates, HEF, _ = imports()
@@ -284,14 +284,23 @@ def pred_eigen(spec: dict, x, np_seed: int):
     d = len(bounds)
     c = StandardCoordinates(ndim=d, bounds=bounds)
     c.position = np.array(x, dtype=float)
-    h = HEF(pot, 1e-4, 10, 0.8)
-    h.remove_trans_rot = False
     np.random.seed(np_seed)
-    iv = h.generate_random_vector(d)
-    h.eigenvector_bounds = [(-math.inf, math.inf)] * d
+    if chain is not None and chain.get("h") is not None:
+        # the SAME search object as for the previous point of this surface, driven as `run` drives it:
+        # bounds are reset once per search and then only updated; the previous direction is the start vector
+        h = chain["h"]
+        iv = chain["v"].copy() if chain.get("v") is not None and chain["warm"] else h.generate_random_vector(d)
+    else:
+        h = HEF(pot, 1e-4, 10, 0.8)
+        h.remove_trans_rot = False
+        iv = h.generate_random_vector(d)
+        h.eigenvector_bounds = [(-math.inf, math.inf)] * d
     lo, up = c.active_bounds()
     h.update_eigenvector_bounds(lo, up)
     ret, err = call(h.get_smallest_eigenvector, iv, c, lo, up)
+    if chain is not None:
+        chain["h"] = h
+        chain["v"] = None if (err or ret[0] is None or np.any(np.isnan(ret[0]))) else np.array(ret[0], dtype=float)
     if err:
         return ("get_smallest_eigenvector:raises", f"raised {err} at {list(x)}"), None
     v, ev, nit = ret
@@ -352,18 +361,41 @@ def predicates(ctx: Ctx) -> None:
     specs = [{"kind": "camel"}] + [{"kind": "cos", "d": d, "seed": rng.randrange(10 ** 6)}
                                    for d in (2, 3, 4, 5, 6) for _ in range(ctx.scale(2, 10) * deep)]
     specs += [{"kind": "sep", "c": [0.5]}, {"kind": "sep", "c": [0.5, -0.25]}]
-    for spec in specs:
+    for si, spec in enumerate(specs):
         _, bounds = H.make_surface(spec)
+        # every other surface: one search object for the whole sequence of points (boundary and interior
+        # points alternate), with or without warm start from the previous direction
+        chain = {"h": None, "v": None, "warm": si % 4 == 1} if si % 2 == 1 else None
         for k in range(ctx.scale(4, 10)):
-            x = H.start_point(rng, bounds, on_bound_prob=0.0 if k % 2 == 0 else 0.5)
+            x = H.start_point(rng, bounds, on_bound_prob=(0.0 if k % 2 == 0 else 0.5) if chain is None
+                              else (0.9 if k % 2 == 0 else 0.0))
             seed = rng.randrange(2 ** 31)
-            r, kind = pred_eigen(spec, x, seed)
+            r, kind = pred_eigen(spec, x, seed, chain)
             ctx.stats.case({"stream": "predicate-eigen", "surface": spec, "x": V(x)}, True)
             kinds[kind or "FAIL"] = kinds.get(kind or "FAIL", 0) + 1
             if kind == "near-tie":
                 ctx.stats.near_ties += 1
             if r:
-                ctx.fail(r[0], r[1], {"kind": "eigen", "surface": spec, "x": x, "np_seed": seed})
+                key = r[0] + (":same-search-object" if chain is not None else "")
+                ctx.fail(key, r[1] + (" (search object reused across points, as within one run)" if chain is not None else ""),
+                         {"kind": "eigen", "surface": spec, "x": x, "np_seed": seed, "chained": chain is not None})
+    # constant-Hessian surfaces, warm start: the direction found at x is already converged at -x (zero
+    # L-BFGS iterations) although the gradient there is reversed — it must still be re-oriented uphill
+    for spec in ({"kind": "sep", "c": [0.5]}, {"kind": "sep", "c": [0.5, -0.25]}, {"kind": "sep", "c": [1.0, 1.0, -1.0]}):
+        _, bounds = H.make_surface(spec)
+        chain = {"h": None, "v": None, "warm": True}
+        for k in range(ctx.scale(6, 16)):
+            if k % 2 == 0:
+                x = [rng.uniform(0.2, 0.8) * rng.choice((-1, 1)) for _ in bounds]
+            else:
+                x = [-t for t in x]
+            seed = rng.randrange(2 ** 31)
+            r, kind = pred_eigen(spec, x, seed, chain)
+            ctx.stats.case({"stream": "predicate-eigen-warm", "surface": spec, "x": V(x)}, True)
+            kinds[kind or "FAIL"] = kinds.get(kind or "FAIL", 0) + 1
+            if r:
+                ctx.fail(r[0] + ":warm-start", r[1] + " (warm start from the direction found at the mirrored point)",
+                         {"kind": "eigen", "surface": spec, "x": x, "np_seed": seed, "chained": True})
     ctx.stats.notes["predicate_eigen"] = kinds
     # DESIGN §6 row 13: keep trying to reach the all-zeroed projection through the public path
     ctx.stats.notes["row13_nan_direction"] = probe_row13(ctx)
